@@ -53,7 +53,7 @@ def rU64 : P Nat := fun bs => match rU32 bs with
   | .error e => .error e
 
 /-- a virtual offset: `makeOffset(uint64)` followed by `vOffset` is the signed reading -/
-def rOff : P Offset := fun bs => match rU64 bs with
+def rOff : P Int := fun bs => match rU64 bs with
   | .ok (n, rest) => .ok (signed64 n, rest)
   | .error e => .error e
 
@@ -87,7 +87,7 @@ def wBins (bins : List Bin) (stats : Option Stats) : Bytes :=
   | some s => i32 ((bins.length : Int) + 1) ++ bins.flatMap wBin ++ wStats s
   | none => i32 bins.length ++ bins.flatMap wBin
 
-def wIntervals (ivs : List Offset) : Bytes := i32 ivs.length ++ ivs.flatMap i64
+def wIntervals (ivs : List Int) : Bytes := i32 ivs.length ++ ivs.flatMap i64
 def wRef (r : RefIndex) : Bytes := wBins r.bins r.stats ++ wIntervals r.intervals
 def wUnmapped : Option Nat → Bytes
   | some n => le64 n
@@ -149,7 +149,7 @@ def rBins : P (List Bin × Option Stats) := fun bs => match rI32 bs with
       | .ok ((bins, st), rest') => .ok ((bins.mergeSort leBin, st), rest')
 
 /-- `readIntervals` -/
-def rIntervals : P (List Offset) := fun bs => match rI32 bs with
+def rIntervals : P (List Int) := fun bs => match rI32 bs with
   | .error e => .error e
   | .ok (n, rest) =>
     if n = 0 then .ok ([], rest) else
